@@ -400,13 +400,16 @@ impl<'a> ProgGen<'a> {
             15..=16 => {
                 self.feat("do");
                 let c = self.fresh_name("Q");
-                let c = format!("{}%", c);
-                let n = self.rng.range(0, 3);
-                self.emit(out, format!("{} = 0", c));
                 let top = self.rng.chance(1, 2);
                 let until = self.rng.chance(1, 2);
                 // a quarter of the UNTIL loops test a plain number (true = not zero), not a comparison
                 let value_cond = until && self.rng.chance(1, 4);
+                // ... and a third of those a floating point number that leaves zero by a tiny amount (2^-19):
+                // truth is "not exactly zero", for UNTIL as for WHILE and IF
+                let tiny = value_cond && self.opts.floats && self.rng.chance(1, 3);
+                let c = if tiny { format!("{}{}", c, self.rng.pick(&["!", "#"])) } else { format!("{}%", c) };
+                let n = self.rng.range(0, 3);
+                self.emit(out, format!("{} = 0", c));
                 let cond = if value_cond {
                     self.feat("until-value");
                     format!("UNTIL {}", c)
@@ -420,8 +423,13 @@ impl<'a> ProgGen<'a> {
                 } else {
                     self.emit(out, "DO".into());
                 }
-                let inc = if value_cond { *self.rng.pick(&[1, 2, 5]) } else { 1 };
-                self.emit(out, format!("  {} = {} + {}", c, c, inc));
+                if tiny {
+                    self.feat("until-tiny-float");
+                    self.emit(out, format!("  {} = {} + .0000019073486328125#", c, c));
+                } else {
+                    let inc = if value_cond { *self.rng.pick(&[1, 2, 5]) } else { 1 };
+                    self.emit(out, format!("  {} = {} + {}", c, c, inc));
+                }
                 self.loop_depth += 1;
                 let b = self.block(depth - 1);
                 self.loop_depth -= 1;
